@@ -33,7 +33,7 @@ PROP = "C10"
 def run(ctx):
     repo = ctx.repo
     res = Result(PROP)
-    res.rules = ["T-KEYS", "T-DEF", "T-ATTRS", "T-CAST", "T-SIBLING", "T-ROLE", "T-NPID", "T-FLOW", "T-DOM"]
+    res.rules = ["T-KEYS", "T-DEF", "T-ATTRS", "T-CAST", "T-SIBLING", "T-ROLE", "T-NPID", "T-FLOW", "T-DOM", "T-IDKEEP"]
     res.explanation = (
         "Narrow claim: finite tables (keys, enumerations, literal maps) are extracted from the writer and the reader of "
         "each dict format and compared; definite assignment of unconditionally-read keys; sibling comparison of the "
@@ -56,6 +56,16 @@ def run(ctx):
                  "def f(rows):\n    tail = {}\n    head = {}\n    for n, e, d in rows:\n        if d == 'in':\n            tail.setdefault(e, []).append(n)\n        else:\n            head.setdefault(e, []).append(n)\n    return {e: (tail[e], head[e]) for e in tail}\n",
                  lambda nd: f"`{unparse(nd, 40)}` is read inside an iteration over the keys of another map that was filled under different conditions; an ID that only ever reached `{unparse(nd.value, 20)}` (for instance an edge with an empty tail, or a node that occurs only there) is never visited and silently disappears from the converted network",
                  "joint reads of sibling maps over a one-sided key domain")
+    # T-IDKEEP: the converters rebuild networks through add_edge / add_node_to_edge / the bulk adders with the labels of the
+    # source; those builders must store an element under the label they are given - including the falsy labels 0 and ''
+    from ..model import CORE_CLASSES
+    from .common import optional_id_truthiness
+
+    builders = [m for cn in CORE_CLASSES for m in repo.get_class(cn).methods.values()] + conv
+    pattern_lint(res, PROP, "T-IDKEEP", builders, optional_id_truthiness,
+                 "def add_edge(self, members, idx=None):\n    uid = next(self._edge_uid) if not idx else idx\n    self._edge[uid] = set(members)\n",
+                 lambda nd: f"`{unparse(nd, 50)}` treats a falsy label (0, '') as 'no label given': a converter that re-creates the element labelled 0 through this builder gets it back under an automatic label, and the attributes recorded for label 0 no longer find it",
+                 "optional ID parameters of the network builders tested for truthiness")
     return res
 
 
